@@ -152,9 +152,9 @@ R3_EXCEPTIONS = {
 }
 
 
-def r3_transition_discipline(ctx):
+def r3_transition_discipline(ctx, rid='C05.R3'):
     from .. import transition
-    r = ctx.rule('C05.R3', 'SUMM', 'transition discipline: no entry point returns with a stream state change that did not pass Counts::transition_after')
+    r = ctx.rule(rid, 'SUMM', 'transition discipline: no entry point returns with a stream state change that did not pass Counts::transition_after')
     F = ctx.facts
     D = transition.Discipline(F)
     r.stat('candidate_functions', len(D.cands))
@@ -164,6 +164,8 @@ def r3_transition_discipline(ctx):
     r.floor(len(entries), 60, 'entry points (Streams / StreamRef / OpaqueStreamRef / DynStreams methods and Drop impls)')
     n_dirty_fns = sum(1 for v in D.summ.values() if v)
     r.stat('functions_that_may_return_dirty', n_dirty_fns)
+    for (fn, what) in sorted(D.idioms):
+        r.exception('idiom|%s' % fn, '%s: %s — the caller holds a Ptr to that stream and transitions it itself' % (core.short(fn), what))
     r.floor(n_dirty_fns, 8, 'helper functions that may return with a pending state change (the rule is live)')
     culprits = {}
     for e in entries:
